@@ -873,6 +873,55 @@ class WorldA:
                     self.tr.count("cmp:D2-exact")
         return {"status": "ok", "loaded": c, "mutated": mutated}
 
+    def op_load_edited(self, op: dict[str, Any]) -> dict[str, Any]:
+        """``load_state_dict`` of an *edited* dictionary: the circuit's own state with its
+        non-learnable tensors (constants, frozen tables, observations) changed as well - what
+        loading a checkpoint written elsewhere does.  One more in-place update of the operand:
+        everything derived from it must follow."""
+        c = self.get(op["target"])
+        if c is None:
+            return {"status": "noop"}
+        sd = {k: v.clone() for k, v in c.cc.state_dict().items()}
+        frozen = {n for n, p in c.cc.named_parameters() if not p.requires_grad}
+        g = torch.Generator().manual_seed(op["seed"])
+        edited = 0
+        k_dom = c.domain[1] if c.domain[0] == "discrete" else 0
+        for key in sorted(sd):
+            if key not in frozen:
+                continue
+            t = sd[key]
+            if t.is_floating_point() or t.is_complex():
+                noise = torch.randn(t.shape, generator=g, dtype=t.real.dtype if t.is_complex() else t.dtype)
+                if op.get("mode", "mul") == "mul":
+                    sd[key] = t * torch.exp(float(op.get("scale", 0.5)) * noise).clamp(1e-2, 1e2)
+                else:
+                    sd[key] = t + float(op.get("scale", 0.5)) * noise
+                edited += 1
+            elif t.dtype == torch.int64 and k_dom >= 2 and "observation" in key:
+                sd[key] = (t + 1) % k_dom  # another value of the domain
+                edited += 1
+        if not edited:
+            return {"status": "noop"}
+        try:
+            c.cc.load_state_dict(sd, strict=True)
+        except Exception as e:
+            self.tr.count(f"load-edited:refused:{type(e).__name__}")
+            return {"status": "refused"}
+        self.tr.count("load-edited:tensors", edited)
+        for b in c.bases:
+            self._mutated(self.circs[b])
+        for d in self.alive():
+            if d is not c and (c.name in d.srcs or set(c.bases) & set(d.bases)):
+                d.mutated_after_birth = True
+        if c.kind == "derived":
+            # the derived circuit's own constants changed: its relation to its operands is a
+            # different one now (e.g. another observation) - stop tracking the old one
+            c.rel_ok = False
+            for d in self.alive():
+                if c.name in d.srcs:
+                    pass  # relations of circuits derived from c are re-evaluated against c as it is
+        return {"status": "ok", "mutated": list(c.bases), "recheck": True}
+
     def op_recompile(self, op: dict[str, Any]) -> dict[str, Any]:
         c = self.get(op["target"])
         if c is None:
